@@ -1896,3 +1896,13 @@ MA('C01', 'broadcasting applies the reflected dunder to the parts',
    'odl/space/pspace.py', '_broadcast_arithmetic._broadcast_arithmetic_impl',
    'res = getattr(xi, op)(other)',
    "res = getattr(xi, op.replace('__r', '__'))(other)", '__rsub__')
+MA('C14', 'single-cell axes lose their per-side boundary flags',
+   'odl/discr/partition.py', 'uniform_partition_fromintv',
+   'grid = uniform_grid_fromintv(intv_prod, shape, nodes_on_bdry=nodes_on_bdry)',
+   'grid = uniform_grid_fromintv(intv_prod, shape, nodes_on_bdry=[(False, False) if n == 1 else b for n, b in zip(np.atleast_1d(shape), normalized_nodes_on_bdry(nodes_on_bdry, intv_prod.ndim))])',
+   'uniform_partition_fromintv')
+MA('C14', 'a single node after a longer axis inherits its half cell',
+   'odl/discr/partition.py', 'nonuniform_partition',
+   'if bdry_l or len(coords) == 1:...',
+   'if bdry_l:\n    min_pt[i] = coords[0]\nelse:\n    min_pt[i] = coords[0] - (coords[min(1, len(coords) - 1)] - coords[0]) / 2.0 - (0 if len(coords) > 1 or i == 0 else 1)',
+   'nonuniform_partition')
